@@ -221,6 +221,8 @@ def explore(ctx, factor, bs):
     rng.shuffle(fam)
     for form in fam[: ctx.pick(150, len(fam)) * (1 if factor == 1 else 2)]:
         one_case(ctx, L.render(form), tag="search:")
+    for form in L.ref_message_family():
+        one_case(ctx, L.render(form), tag="refmsg:")
     fam = list(L.unlabelled_family())
     rng.shuffle(fam)
     for form in fam[: ctx.pick(150, len(fam)) * (1 if factor == 1 else 2)]:
@@ -235,23 +237,6 @@ def is_f38(f: Failure) -> bool:
     return f.kind == "language-missing-empty-column"
 
 
-def is_f40(f: Failure) -> bool:
-    """in-line choice label of a search() select missing (nothing shown) when the *question* has no label cell at all and
-    the list is not itext-bearing: `elif self.label and option.label` in MultipleChoiceQuestion.build_xml"""
-    if f.kind != "text" or f.extra.get("kind") != "label" or f.extra.get("got") is not None or "@" not in f.extra.get("key", ""):
-        return False
-    case = f.case["case"]
-    ckey, skey = f.extra["key"].split("@")
-    row = case["survey"][int(skey[1:])]
-    if "search(" not in str(row.get("appearance", "")):
-        return False
-    double = any("::" in h for h in case["survey_cols"])
-    has_label = any((L.read_header(h, double) or ("", None))[0] == "label" and v not in (None, "") for h, v in row.items())
-    spec = L.py_spec(case)
-    inline = spec["plan"].get(ckey, {}).get("label", ("", None))[0] == "inline"
-    return (not has_label) and inline
-
-
 def replay(ctx, payload, bs):
     before = len(ctx.failures), len(ctx.mismatches)
     one_case(ctx, payload["case"]["case"])
@@ -259,4 +244,4 @@ def replay(ctx, payload, bs):
 
 
 def main(argv):
-    return vcore.run_check(PROP, explore, RULE, matchers={"F38-empty-translated-column": is_f38, "F40-search-inline-label-needs-question-label": is_f40}, replay=replay, argv=argv)
+    return vcore.run_check(PROP, explore, RULE, matchers={"F38-empty-translated-column": is_f38}, replay=replay, argv=argv)
